@@ -69,9 +69,20 @@ func (vc *VC) Run() {
 			vc.heapKeySort("#waited", types.Typ[types.Bool])
 			h := vc.heapGet(st, "#waited", types.Typ[types.Bool])
 			vc.addFact("assume", fmt.Sprintf("(forall ((l!w Loc)) (! (not (select %s l!w)) :pattern ((select %s l!w))))", h, h))
-			vc.heapKeySort("#polled", types.Typ[types.Bool])
-			hp := vc.heapGet(st, "#polled", types.Typ[types.Bool])
-			vc.addFact("assume", fmt.Sprintf("(forall ((l!w Loc)) (! (not (select %s l!w)) :pattern ((select %s l!w))))", hp, hp))
+			// nothing has been polled either (only stated where the function polls: one quantified fact less elsewhere)
+			polls := false
+			for _, bb := range fn.Blocks {
+				for _, ins := range bb.Instrs {
+					if sel, ok := ins.(*ssa.Select); ok && !sel.Blocking {
+						polls = true
+					}
+				}
+			}
+			if polls {
+				vc.heapKeySort("#polled", types.Typ[types.Bool])
+				hp := vc.heapGet(st, "#polled", types.Typ[types.Bool])
+				vc.addFact("assume", fmt.Sprintf("(forall ((l!w Loc)) (! (not (select %s l!w)) :pattern ((select %s l!w))))", hp, hp))
+			}
 		}
 		if vc.fc.Flags["no-blocking-under-lock"] {
 			// locks held by callers are not tracked: none is held by this function when it starts
@@ -116,6 +127,22 @@ func (vc *VC) Run() {
 			root = root.Parent()
 		}
 		if strings.HasPrefix(root.Name(), "init") {
+			continue
+		}
+		// cheap pre-filter on the invariant's text: a function that references none of the package
+		// variables named in it gets nothing from it, and translating it would only register heaps (and
+		// their quantified well-formedness facts) the function never touches
+		touches := false
+		for _, bb := range fn.Blocks {
+			for _, ins := range bb.Instrs {
+				for _, op := range ins.Operands(nil) {
+					if g, isG := (*op).(*ssa.Global); isG && g.Pkg == fn.Pkg && containsWord(gi.Src, g.Name()) {
+						touches = true
+					}
+				}
+			}
+		}
+		if !touches {
 			continue
 		}
 		env := vc.newEnv(st, st)
@@ -1478,7 +1505,19 @@ func (vc *VC) ret(x *ssa.Return, st *State) {
 		}
 	}
 	vc.applyHints(-1, "ret", env)
+	// index of this return statement in source order (for clauses placed at one return)
+	retIdx := 1
+	for _, bb := range vc.fn.Blocks {
+		for _, ins := range bb.Instrs {
+			if r2, ok := ins.(*ssa.Return); ok && r2 != x && r2.Pos() < x.Pos() {
+				retIdx++
+			}
+		}
+	}
 	for i, c := range vc.fc.Ensures {
+		if c.RetIdx != 0 && c.RetIdx != retIdx {
+			continue
+		}
 		label := c.Label
 		if label == "" {
 			label = fmt.Sprintf("ensures%d", i)
